@@ -77,6 +77,7 @@ class AppMixin:
     async def should_replay(self, historical_replay_msg):
         seq = historical_replay_msg.get(FTag.MsgSeqNum, None)
         self.sim.rec("should_replay", self.name, seq)
+        self.sim.stat("should_replay_calls")
         try:
             await self.sim.hook(self.name, "should_replay")
         except Exception:
